@@ -225,7 +225,7 @@ func genC06(c *Ctx) {
 	}
 	lap("threats")
 	// (2) exactly solved game graphs: every position in them has a known value for both colours
-	graphs := c.Scale(16, 96)
+	graphs := c.Scale(16, 40)
 	lo, hi := 300, 60000
 	perGraph := 24
 	if c.Thorough() {
@@ -268,7 +268,7 @@ func genC06(c *Ctx) {
 
 	lap("graphs")
 	// (3) self-contained small graphs (second opinion of the two exact solvers on each other)
-	for k := c.Scale(48, 600); k > 0; k-- {
+	for k := c.Scale(48, 200); k > 0; k-- {
 		root := famPosition(r, 3, 1, 1, 30, 0, 1)
 		caseNo++
 		c.Emit(fmt.Sprintf("case %d.%d", c.Shard, caseNo))
@@ -279,7 +279,7 @@ func genC06(c *Ctx) {
 
 	lap("selfcontained")
 	// (4) larger positions near the end of random games, judged one-sidedly by exhaustive search to a fixed depth
-	for k := c.Scale(96, 4000); k > 0; k-- {
+	for k := c.Scale(96, 600); k > 0; k-- {
 		size := 3 + r.Intn(3)
 		if r.Chance(1, 8) {
 			size = 6
@@ -308,7 +308,7 @@ func genC06(c *Ctx) {
 	lap("bounded")
 
 	// (5) finished games as roots: the verdict is the result of the game
-	for k := c.Scale(64, 1600); k > 0; k-- {
+	for k := c.Scale(64, 300); k > 0; k-- {
 		size := 3 + r.Intn(3)
 		var last *tak.Position
 		playout(r, randomConfig(r, size), 8*size*size, func(p *tak.Position) { last = p })
@@ -325,7 +325,7 @@ func genC06(c *Ctx) {
 
 	// (6) one solver / one prover used for several positions, also of different board sizes (larger first:
 	// a pooled position of a smaller board cannot hold a larger one)
-	for k := c.Scale(16, 240); k > 0; k-- {
+	for k := c.Scale(16, 64); k > 0; k-- {
 		caseNo++
 		c.Emit(fmt.Sprintf("case %d.%d", c.Shard, caseNo))
 		att := []tak.Color{tak.NoColor, tak.NoColor, tak.White, tak.Black}[r.Intn(4)]
@@ -380,7 +380,7 @@ func genC06(c *Ctx) {
 
 	// (7) very wide positions (tall stacks of the side to move on 7x7/8x8: over a thousand moves), where the
 	// first level of a PN² search passes pn2Threshold before the tree is deep; with and without depth limit
-	for k := c.Scale(16, 240); k > 0; k-- {
+	for k := c.Scale(16, 64); k > 0; k-- {
 		p := widePosition(r)
 		caseNo++
 		c.Emit(fmt.Sprintf("case %d.%d", c.Shard, caseNo))
